@@ -1288,6 +1288,36 @@ def gen_c12(tier, seed):
             regs = hostile_regs()
             ops = ['ld:%x:%s' % (PC0, hexs(code))] + ['r:%x:%x' % (i2, regs[i2]) for i2 in sorted(regs)] + ['r:f:%x' % PC0, 'dc', 'st']
             g.add(ops, 'prefix-chain')
+    # every opcode with every register descriptor (quick: %r0-%r15 / immediate 0x4f; thorough: all 256 descriptor bytes)
+    # as its first operand, with sane pointers elsewhere: register-number-dependent loops and table indexing
+    descs = list(range(0x40, 0x50)) if tier == 'quick' else list(range(256))
+    sane = {i: 0x710000 + 0x100 * i for i in range(16)}
+    sane[11] = 0x2800100; sane[12] = 0x730000; sane[13] = 0x740000; sane[14] = 0x741000; sane[9] = 0x730400; sane[10] = 0x730800
+    for o in all_opcodes:
+        for dsc in descs:
+            code = ([o] if o < 0x100 else [o >> 8, o & 0xff]) + [dsc] + [0x41, 0x42, 0x43] + [0x70] * 6
+            ops = ['ld:%x:%s' % (PC0, hexs(code))] + ['r:%x:%x' % (i2, sane[i2]) for i2 in sorted(sane)] + ['r:f:%x' % PC0, 'st']
+            g.add(ops, 'opcode-x-descriptor')
+    # DUART register access histories: every register address read / written several times in a row (pointer-driven
+    # registers such as MR1/MR2 advance on each access), then random mixed histories
+    for a in range(0x200000, 0x200040):
+        for pat in ('rrrr', 'wwww', 'rwrw', 'wrrr'):
+            ops = []
+            for ch in pat:
+                ops.append('rb:%x' % a if ch == 'r' else 'wb:%x:%x' % (a, r.randrange(256)))
+            g.add(ops + ['ds'], 'duart-register-history')
+    for i in range(200 if tier == 'quick' else 20000):
+        ops = []
+        for _ in range(r.randrange(8, 40)):
+            a = 0x200000 + (r.choice([3, 7, 0xb, 0xf, 0x13, 0x17, 0x1b, 0x1f, 0x23, 0x27, 0x2b, 0x2f, 0x33, 0x37, 0x3b, 0x3f]) if r.random() < 0.8 else r.randrange(64))
+            c = r.random()
+            if c < 0.5:
+                ops.append(r.choice(['rb', 'rb', 'rb', 'rh', 'rw', 'oh', 'ow']) + ':%x' % a)
+            elif c < 0.85:
+                ops.append(r.choice(['wb', 'wb', 'wb', 'wh', 'ww']) + ':%x:%x' % (a, r.randrange(256)))
+            else:
+                ops.append(r.choice(['qa:%x' % r.randrange(256), 'qb:%x' % r.randrange(256), 't:%x' % r.randrange(1 << 30), 'sv', 'gi', 'md:1', 'mu:1']))
+        g.add(ops + ['ds'], 'duart-register-history')
     # host-side bus reads at any address and width, and host input calls with any argument
     for i in range(300 if tier == 'quick' else 20000):
         ops = []
